@@ -14,6 +14,7 @@ import (
 	"strconv"
 	"unicode/utf8"
 
+	"github.com/tobgu/qframe/config/groupby"
 	"github.com/tobgu/qframe/config/newqf"
 	qfio "github.com/tobgu/qframe/internal/io"
 	"github.com/tobgu/qframe/internal/vx"
@@ -205,6 +206,11 @@ func VX_C14_tojson() {
 		}
 	case "empty":
 		names, cols = []string{"a"}, []vxCol{vxMakeCol("int", P, 0)}
+	case "digits": // digit counts 1..17 around the 32-bit boundary of the digit string
+		fls := []float64{4294967296, 4294967295, 5123456789, 0.4294967296, 9.999999999, 42949672.96, 99999999999, 1234567890123456, 12345678901234567, 0.000005123456789, 7}
+		n = len(fls)
+		P = n
+		names, cols = []string{"f"}, []vxCol{{typ: "float", f: fls}}
 	case "big":
 		// many rows of concrete cells: the text (> 8 KiB) crosses any internal buffer boundary
 		n = 700
@@ -217,7 +223,7 @@ func VX_C14_tojson() {
 	case "concrete":
 		// concrete cells through the real escaping and digit code
 		strs := []string{"\uFFFD", "\u2028", "a\u2029b", "\u00e9", "\xff", "\xe2\x80", "\xef\xbf", "tab\tq\"b\\", "\x7f\x00", "\U0001F600", ""}
-		fls := []float64{math.Copysign(0, -1), 0, 1.5, -2.5e-7, 1e21, 123456789, 0.1, 5e-324, 1e300, 0.30000000000000004, -1}
+		fls := []float64{math.Copysign(0, -1), 0, 1.5, -2.5e-7, 1e21, 123456789, 0.1, 5e-324, 1e300, 0.30000000000000004, 0.5123456789}
 		n = len(strs)
 		P = n
 		sc := vxCol{typ: "string", s: strs, null: make([]bool, n)}
@@ -232,6 +238,11 @@ func VX_C14_tojson() {
 		ix = vxIota(n)
 		k := vxConc(vx.IntN(0, 1), 2) // and the solver picks one of two arrangements
 		ix[0], ix[k*(n-1)] = ix[k*(n-1)], ix[0]
+	}
+	if shape == "digits" {
+		ix = vxIota(n)
+		k := vxConc(vx.IntN(0, n-1), n)
+		ix[0], ix[k] = ix[k], ix[0]
 	}
 	if shape == "concrete" {
 		ix = vxIota(n)
@@ -604,4 +615,45 @@ func (d *c14stream) Decode(v interface{}) error {
 		}
 		d.fill()
 	}
+}
+
+// VX_C14_aggregated: ToJSON of frames that come out of GroupBy/Aggregate (renamed columns), Select and Copy:
+// the keys are the frame's column names as they are now.
+func VX_C14_aggregated() {
+	P := 4
+	g := vxCol{typ: "string", s: []string{"a", "b", "a", "b"}, null: make([]bool, P)}
+	x := vxMakeCol("int", P, 0)
+	f := vxFrame([]string{"G", "X"}, []vxCol{g, x}, nil)
+	r := f.GroupBy(groupby.Columns("G")).Aggregate(Aggregation{Fn: "sum", Column: "X", As: "TOTAL"}, Aggregation{Fn: "max", Column: "X", As: "LARGEST"})
+	vx.Check(r.Err == nil, "Aggregate: no error")
+	for _, h := range []QFrame{r, r.Sort(Order{Column: "G"}), r.Select("LARGEST", "G"), r.Copy("Z", "TOTAL")} {
+		w := &vxBuf{}
+		vx.Check(h.ToJSON(w) == nil, "ToJSON: no error")
+		rd := &c14rd{b: w.b, ok: true}
+		rd.expect('[')
+		names := h.ColumnNames()
+		for row := 0; row < h.Len() && rd.ok; row++ {
+			if row > 0 {
+				rd.expect(',')
+			}
+			rd.expect('{')
+			for k, name := range names {
+				if k > 0 {
+					rd.expect(',')
+				}
+				key := rd.str()
+				vx.Check(key == name, "key is the column's current name")
+				rd.expect(':')
+				if rd.peek('"') {
+					rd.str()
+				} else {
+					rd.token()
+				}
+			}
+			rd.expect('}')
+		}
+		rd.expect(']')
+		vx.Check(rd.ok && rd.pos == len(rd.b), "valid JSON")
+	}
+	vx.Reach("end")
 }
